@@ -52,6 +52,9 @@ func runC12(rc *RunCtx) {
 	rc.Cfg("plain_disk", opts.Plain)
 	rc.Cfg("sealable_namespace", sealable)
 	disk := NewDisk(s)
+	// second scheduling point per storage operation (effect vs. continuation) in a third of the runs
+	disk.PostGate = tp.Pick(3) == 2
+	rc.Cfg("post_gate", disk.PostGate)
 	disk.RecordOps = true
 	rec := NewRecorder(s)
 	opts.Logical = map[string]logical.Factory{"rec": RecFactory(rec, false), "kv": kv.Factory}
